@@ -116,6 +116,20 @@ def interp(p):
             diff = [i for i in range(min(len(ck), len(r0))) if ck[i] != r0[i]]
             raise Violation("keyword/result-differs-from-positional", "%s: %s(%s) differs from the positional call at positions %r (e.g. %r vs %r)" % (where, e["name"], ", ".join(n_ + "=..." for n_ in names_), diff[:6], ck[diff[0]] if diff else ck, r0[diff[0]] if diff else r0))
         labels.add("keyword_call")
+    # short arrays: every member view of the subject that fits an array argument is tried, not only the rotating pick
+    if arg_member and out0.get("member_used") and n <= 16 and isinstance(r0, list):
+        for pick in range(4):
+            try:
+                outm, sem, aem = evaluate(e, n, a, b, False, False, False, False, True, pick)
+            except Exception as ex:
+                raise Violation("catalogue/entry-raises", "%s [argument = subject member #%d] raised %r" % (where, pick, ex))
+            gm = outm["result"] if e["kind"] == "array" else outm["self_after"]
+            if e.get("scalar_oracle") in ("exact", "approx") and isinstance(gm, list):
+                for i in range(n):
+                    exp = scalar_expected(e, sem, aem, e["args"], i)
+                    ok_ = (gm[i] == exp) if e["scalar_oracle"] == "exact" else approx_equal(gm[i], exp)
+                    if not ok_:
+                        raise Violation("scalar/element-differs", "%s [argument = subject.%s]: element %d is %s, the scalar binding gives %s" % (where, outm.get("member_used"), i, gm[i], exp))
     for o_ in (out0, _o):
         if o_.get("strided") and not o_.get("neighbours_intact", True):
             raise Violation("strided-subject/neighbouring-members-modified", "%s: the subject is the member view of an aggregate array; the operation changed other members of the parent's elements" % where)
